@@ -428,6 +428,15 @@ impl<'a, 'tcx> Ex<'a, 'tcx> {
             PatKind::Constant { value } => {
                 J::kind("Constant").set("v", J::s(format!("{:?}", value)))
             }
+            PatKind::Array { prefix, slice, suffix } | PatKind::Slice { prefix, slice, suffix } => {
+                let mut o = J::kind(if matches!(&p.kind, PatKind::Array { .. }) { "Array" } else { "Slice" })
+                    .set("prefix", J::Arr(prefix.iter().map(|q| self.pat(q)).collect()))
+                    .set("suffix", J::Arr(suffix.iter().map(|q| self.pat(q)).collect()));
+                if let Some(sl) = slice {
+                    o.put("slice", self.pat(sl));
+                }
+                o
+            }
             PatKind::Or { pats } => {
                 J::kind("Or").set("pats", J::Arr(pats.iter().map(|p| self.pat(p)).collect()))
             }
